@@ -108,6 +108,11 @@ func (f *Frame) execCall(instr *ssa.Call, cc *ssa.CallCommon, reach string, st *
 	if callee == nil {
 		// call through a function value
 		fv := f.val(cc.Value)
+		if nt, ok := cc.Value.Type().(*types.Named); ok && nt.Obj().Pkg() != nil && nt.Obj().Pkg().Path() == "context" && nt.Obj().Name() == "CancelFunc" {
+			// cancelling a context does not touch modelled state
+			f.eng.note("calls of context.CancelFunc values have no effect on modelled state")
+			return
+		}
 		if f.top.noopFuncs[fv] {
 			// broadcast() / getWaitCh() inside a HoldLock callback: no effect on modelled state
 			f.setResult(instr, f.havocResults(sig, st, "bcast"))
@@ -139,7 +144,10 @@ func (f *Frame) execCall(instr *ssa.Call, cc *ssa.CallCommon, reach string, st *
 		f.lockOp(cc.Args[0], false, reach, st, pos)
 		return
 	}
-	if n := FuncName(callee); n == "github.com/aperturerobotics/util/broadcast.(*Broadcast).HoldLock" {
+	if n := FuncName(callee); n == "github.com/aperturerobotics/util/broadcast.(*Broadcast).HoldLock" ||
+		n == "github.com/aperturerobotics/util/broadcast.(*Broadcast).HoldLockMaybeAsync" {
+		// HoldLockMaybeAsync runs the callback exactly once, possibly later, under the
+		// lock: the section is verified from an arbitrary lock-time state either way.
 		f.eng.note("Broadcast.HoldLock(cb) runs cb exactly once, synchronously, with the lock held (assumed contract of util/broadcast)")
 		if f.holdLock(instr, cc, reach, st) {
 			return
